@@ -110,6 +110,11 @@ pub fn generated_seeds(thorough: bool) -> Vec<Seed> {
     v.push(seed("gen:cmp-closure", "PartialEq", "struct X(#[partial_eq(by = |a: &u8, b: &u8| a == b)] u8, u8);"));
     v.push(seed("gen:cmp-closure", "Ord, PartialOrd, Eq, PartialEq", "struct X { #[ord(by = |a: &f64, b: &f64| a.total_cmp(b), reverse)] a: f64, b: u8 }"));
     v.push(seed("gen:cmp-closure", "Hash, PartialEq", "enum X { A(#[hash(by = |a: &u8, s| ::core::hash::Hash::hash(&(*a / 2), s))] #[partial_eq(by = |a: &u8, b: &u8| a / 2 == b / 2)] u8), B }"));
+    v.push(seed("gen:cmp-literal", "PartialEq, Hash", "struct X(#[eq(key = $.len() + \" :: \".len() + \":::\".len())] String);"));
+    // one trait of the list cannot be generated: the others (and their dumps) are not disturbed
+    for (attr, item) in [("Clone, Deref", "struct X(u8, u8);"), ("Default, Clone", "enum X { A, B }"), ("Clone, Debug", "struct X(#[debug(transparent)] u8, #[debug(transparent)] u8);"), ("Ord, PartialOrd, Eq, PartialEq", "struct X(#[partial_ord(reverse)] u8);")] {
+        v.push(seed("gen:failing-sibling", attr, item));
+    }
     // generic comparison with bounds
     v.push(seed("gen:cmp-bound", "PartialEq, PartialOrd, bound(T: Copy, ..)", "#[partial_ord(bound(T: PartialOrd))] struct X<T>(#[partial_eq(bound(..))] T, Option<T>);"));
     v.push(seed("gen:cmp-bound-enum", "Eq, PartialEq, Hash", "#[eq(bound(T: Eq))] enum X<T> { #[derive_ex(Hash(bound(T: ::core::hash::Hash)))] A(T), #[hash(bound(..))] B { #[eq(key = $.len())] x: Vec<T> } }"));
@@ -118,7 +123,7 @@ pub fn generated_seeds(thorough: bool) -> Vec<Seed> {
         v.push(seed("gen:debug", "Debug", item));
     }
     // Default
-    for item in ["struct X { #[default(\"a  b\\tc   d\")] s: String, #[default(' ')] t: char }", "struct X;", "struct X(#[default(5)] u8, i32);", "struct X { #[default(\"abc\")] a: String, b: i32 }", "#[default(X(1, 2))] struct X(u8, i32);", "enum X { A, #[default] B(u8), C }", "enum X { A { x: u8 } }", "#[default(Self::C)] enum X { A, B(u8), C }", "#[default(_, bound(T))] struct X<T>(Box<T>);", "enum X<T> { A, #[default(_, bound(T: Default))] B { #[default(_, bound(..))] t: T } }"] {
+    for item in ["struct X { #[default(\"a :: b:::c ::\")] s: String, #[default(':')] t: char }", "struct X { #[default(\"a  b\\tc   d\")] s: String, #[default(' ')] t: char }", "struct X;", "struct X(#[default(5)] u8, i32);", "struct X { #[default(\"abc\")] a: String, b: i32 }", "#[default(X(1, 2))] struct X(u8, i32);", "enum X { A, #[default] B(u8), C }", "enum X { A { x: u8 } }", "#[default(Self::C)] enum X { A, B(u8), C }", "#[default(_, bound(T))] struct X<T>(Box<T>);", "enum X<T> { A, #[default(_, bound(T: Default))] B { #[default(_, bound(..))] t: T } }"] {
         v.push(seed("gen:default", "Default", item));
     }
     // Clone / Copy / mixed lists with bounds
